@@ -6,7 +6,8 @@
      <<"slice", <<a, b, c>>>>                each component <<>> (None) or <<v>>
      <<"mask",  <<b1, ..., bn>>>>            boolean mask, length must equal n
      <<"arr",   <<k1, ..., km>>>>            integer index array (negative wraps once)
-     <<"all",   <<>>>>                       Ellipsis / ':'
+     <<"all",   <<>>>>                       ':'
+     <<"ell",   <<>>>>                       Ellipsis
    Resolve(idx, n) = [ok |-> BOOLEAN, pos |-> sequence of 0-based source positions,
                       scalar |-> BOOLEAN]
    Positions are 0-based like the code's. *)
@@ -80,7 +81,7 @@ Resolve(idx, n) ==
          IF \A i \in DOMAIN p : InRange(p[i], n)
            THEN [ok |-> TRUE, pos |-> [i \in DOMAIN p |-> WrapOne(p[i], n)], scalar |-> FALSE]
            ELSE Bad
-    [] kind = "all" ->
+    [] kind \in {"all", "ell"} ->      \* ':' and Ellipsis select the whole axis
          [ok |-> TRUE, pos |-> [i \in 1..n |-> i - 1], scalar |-> FALSE]
 
 (* Generators of index objects for exhaustive configurations *)
@@ -91,4 +92,5 @@ MaskIdx(n) == {<<"mask", m>> : m \in [1..n -> BOOLEAN]}
 SeqsUpTo(S, k) == UNION {[1..m -> S] : m \in 0..k}
 ArrIdx(S, k) == {<<"arr", s>> : s \in SeqsUpTo(S, k)}
 AllIdx == {<<"all", <<>>>>}
+EllIdx == {<<"ell", <<>>>>}
 =============================================================================
